@@ -10,6 +10,7 @@ import (
 	"os"
 	"runtime"
 	"strings"
+	"sync"
 	"testing"
 	"time"
 
@@ -379,6 +380,53 @@ func TestDnsAdversarial(t *testing.T) {
 				srv2.Close()
 			}
 		}
+	}
+	// ... and the same failures while several goroutines look the same name up through one Resolver: a lookup that fails
+	// must not leave anything behind that blocks the others (every lookup returns)
+	for _, how := range []int{-1, 2} {
+		var mu sync.Mutex
+		calls := 0
+		srv3 := newDoHServer(func(id int, name string, qtype int) ([]byte, int) {
+			mu.Lock()
+			calls++
+			k := calls
+			mu.Unlock()
+			time.Sleep(2 * time.Millisecond) // lookups overlap
+			if k%2 == 1 {
+				if how < 0 {
+					return []byte{0, 0, 0x81, 0x80, 0, 1, 0, 1}, 200
+				}
+				return wResponse(id, name, qtype, how, nil), 200
+			}
+			if qtype == tA {
+				return wResponse(id, name, qtype, 0, []wRR{rrA(name, 60, "192.0.2.9")}), 200
+			}
+			return wResponse(id, name, qtype, 0, nil), 200
+		})
+		res, _ := ech.NewResolver(srv3.url())
+		var wg sync.WaitGroup
+		for g := 0; g < 6; g++ {
+			wg.Add(1)
+			go func() {
+				defer wg.Done()
+				defer func() { recover() }()
+				for k := 0; k < 4; k++ {
+					ctx, cancel := context.WithTimeout(context.Background(), 5*time.Second)
+					res.Resolve(ctx, "origin.example")
+					cancel()
+				}
+			}()
+		}
+		fin := make(chan struct{})
+		go func() { wg.Wait(); close(fin) }()
+		nEval++
+		select {
+		case <-fin:
+		case <-time.After(2 * watchdogLimit()):
+			noteHang()
+			report("concurrent-failure", fmt.Sprint(how), "hang", nil)
+		}
+		srv3.Close()
 	}
 	// an HTTPS answer whose TargetName is far longer than any legal name (the decoder does not cap names): the resolver
 	// goes on to look that target up - whatever it does with it, it does not panic
